@@ -106,25 +106,46 @@ fn weights(seed: u64, n: usize) -> Weights {
     let mut complex = HashMap::new();
     let mut eu = HashMap::new();
     let mut poly = HashMap::new();
+    // one weight table in three is "special": a variable in three then carries the values arithmetic shortcuts
+    // get wrong -- zero, one, minus one, equal low and high, the field elements 0, 1 and p-1
+    let special_table = r.below(3) == 0;
     for v in 0..n {
         let l = VarLabel::new(v as u64);
+        let sp = special_table && r.below(3) == 0;
+        let same = sp && r.below(3) == 0;
         // small dyadic rationals: every sum and product below is exact in f64
-        real.insert(l, (RealSemiring(r.below(9) as f64 / 4.0), RealSemiring(r.below(9) as f64 / 4.0)));
-        let k = r.below(9) as f64;
+        let re = |r: &mut Rng| if sp { *r.pick(&[0.0, 1.0, -1.0, -0.5, 2.0]) } else { r.below(9) as f64 / 4.0 };
+        let (a, b) = (re(&mut r), re(&mut r));
+        real.insert(l, (RealSemiring(a), RealSemiring(if same { a } else { b })));
+        let k = if sp { *r.pick(&[0.0, 8.0, 4.0]) } else { r.below(9) as f64 };
         prob.insert(l, (RealSemiring(k / 8.0), RealSemiring(1.0 - k / 8.0)));
-        tiny.insert(l, (FiniteField::new(r.below(1000) as u128), FiniteField::new(r.below(1000) as u128)));
-        small.insert(l, (FiniteField::new(r.next() as u128), FiniteField::new(r.next() as u128)));
-        large.insert(l, (FiniteField::new(r.next() as u128), FiniteField::new(r.next() as u128)));
+        let ff = |r: &mut Rng, p: u128, wide: bool| -> u128 {
+            if sp {
+                *r.pick(&[0, 1, p - 1, p - 2, 2])
+            } else if wide {
+                r.next() as u128
+            } else {
+                r.below(1000) as u128
+            }
+        };
+        let (a, b) = (ff(&mut r, primes::U32_TINY, false), ff(&mut r, primes::U32_TINY, false));
+        tiny.insert(l, (FiniteField::new(a), FiniteField::new(if same { a } else { b })));
+        let (a, b) = (ff(&mut r, primes::U32_SMALL, true), ff(&mut r, primes::U32_SMALL, true));
+        small.insert(l, (FiniteField::new(a), FiniteField::new(if same { a } else { b })));
+        let (a, b) = (ff(&mut r, primes::U64_LARGEST, true), ff(&mut r, primes::U64_LARGEST, true));
+        large.insert(l, (FiniteField::new(a), FiniteField::new(if same { a } else { b })));
         rational.insert(l, (rat(r.below(4)), rat(r.below(4))));
-        complex.insert(
-            l,
-            (
-                Complex { re: r.below(5) as f64 / 2.0, im: r.below(5) as f64 / 2.0 - 1.0 },
-                Complex { re: r.below(5) as f64 / 2.0, im: r.below(5) as f64 / 2.0 - 1.0 },
-            ),
-        );
-        let k = r.below(9) as f64;
-        eu.insert(l, (ExpectedUtility(k / 8.0, r.below(4) as f64), ExpectedUtility(1.0 - k / 8.0, r.below(4) as f64)));
+        let cx = |r: &mut Rng| {
+            if sp {
+                *r.pick(&[Complex { re: 0.0, im: 0.0 }, Complex { re: 1.0, im: 0.0 }, Complex { re: 0.0, im: 1.0 }, Complex { re: -1.0, im: 0.0 }])
+            } else {
+                Complex { re: r.below(5) as f64 / 2.0, im: r.below(5) as f64 / 2.0 - 1.0 }
+            }
+        };
+        let (a, b) = (cx(&mut r), cx(&mut r));
+        complex.insert(l, (a, if same { a } else { b }));
+        let k = if sp { *r.pick(&[0.0, 8.0, 4.0]) } else { r.below(9) as f64 };
+        eu.insert(l, (ExpectedUtility(k / 8.0, r.below(4) as f64), ExpectedUtility(1.0 - k / 8.0, if sp { 0.0 } else { r.below(4) as f64 })));
         let mk = |r: &mut Rng| {
             let mut p = Polynomial::<RealSemiring>::zero();
             let len = 1 + r.below(3) as usize;
